@@ -906,4 +906,237 @@ theorem doAwaitStatusResponse_eff (c c' : Ctx) (now : Int) (a : Nat) (hst : c.s.
       subst this; subst hc'
       exact ⟨⟨hq.calls, hq.apps, by simpa using hq.p⟩, by simpa using ho1, by simpa using hev1, .inr (.inr (.inr (.inr rfl)))⟩
 
+
+/-! ## Applications: `do_use_token`, `do_await_data_response` -/
+
+/-- All records are `transmit_telegram` callbacks. -/
+def AskRun (new : List AppCall) : Prop := ∀ r ∈ new, ∃ i hp ans, r = AppCall.transmit i hp ans
+
+/-- If the station awaits a data reply, the call log ends with the request being awaited: a telegram
+expecting a reply from exactly the awaited address, sent by the application whose turn it is. -/
+def AwaitLink (log : List AppCall) (s : Station) : Prop :=
+  ∀ a d, s.st = .awaitData a d → ∃ pre hp hd pdu a8,
+    log = pre ++ [.transmit s.nextApp hp (.send hd pdu)] ∧ expectsReplyOf hd = some a8 ∧ a8.toNat = a
+
+/-- The reply admission filter of `do_await_data_response`. -/
+def validReplyB (ts addr : Nat) : Telegram → Bool
+  | .token .. => false
+  | .sc => true
+  | .data h _ => decide (h.sa.toNat = addr) && decide (h.da.toNat = ts) &&
+      (match h.fc with | .response .. => true | _ => false)
+
+theorem appTransmit_eff (c c1 : Ctx) (now : Int) (hp b : Bool) (d : UseData) (fcd : Bool)
+    (hst : c.s.st = .useToken d fcd) (h : appTransmit c now hp = (.ok c1, b)) :
+    ∃ ans, c1.calls = c.calls ++ [.transmit c.s.nextApp hp ans] ∧ c1.s.ring = c.s.ring ∧ c1.s.p = c.s.p ∧
+      c1.s.online = c.s.online ∧ c1.s.nextApp = c.s.nextApp ∧ c1.apps.length = c.apps.length ∧
+      (b = false → ans = .decline ∧ c1.s.st = .useToken d fcd) ∧
+      (b = true → ∃ hd pdu, ans = .send hd pdu ∧
+         ((expectsReplyOf hd = none ∧ c1.s.st = .useToken d fcd) ∨
+          (∃ a8, expectsReplyOf hd = some a8 ∧ c1.s.st = .awaitData a8.toNat d))) := by
+  unfold appTransmit at h
+  simp only at h
+  rcases hs : c.apps[c.s.nextApp]? with _ | script <;> rw [hs] at h <;> simp only at h
+  · cases h
+  rcases ha : script.headD .decline with _ | ⟨hd, pdu⟩ <;> rw [ha] at h <;> simp only at h
+  · simp only [Prod.mk.injEq, Res.ok.injEq] at h
+    obtain ⟨h1, h2⟩ := h
+    subst h1; subst h2
+    exact ⟨.decline, rfl, rfl, rfl, rfl, rfl, by simp, fun _ => ⟨rfl, hst⟩, (by intro hb; cases hb)⟩
+  rcases hser : hd.serialize pdu with bytes | _ <;> rw [hser] at h <;> simp only at h
+  rcases hexp : expectsReplyOf hd with _ | a8 <;> rw [hexp] at h <;> simp only at h
+  · simp only [Prod.mk.injEq] at h
+    obtain ⟨h1, h2⟩ := h
+    have := transmit_inv h1
+    subst this; subst h2
+    exact ⟨.send hd pdu, rfl, by simp, by simp, by simp, by simp, by simp, (by intro hb; cases hb),
+      fun _ => ⟨hd, pdu, rfl, .inl ⟨hexp, by simpa using hst⟩⟩⟩
+  · rw [hst] at h
+    simp only [toAwaitData, hst] at h
+    simp only [Prod.mk.injEq] at h
+    obtain ⟨h1, h2⟩ := h
+    have := transmit_inv h1
+    subst this; subst h2
+    exact ⟨.send hd pdu, rfl, by simp, by simp, by simp, by simp, by simp, (by intro hb; cases hb),
+      fun _ => ⟨hd, pdu, rfl, .inr ⟨a8, hexp, by simp⟩⟩⟩
+  · cases h
+
+theorem askRun_nil : AskRun [] := fun r hr => by cases hr
+
+theorem askRun_cons {r : AppCall} {l : List AppCall} (h1 : ∃ i hp ans, r = .transmit i hp ans) (h2 : AskRun l) : AskRun (r :: l) := by
+  intro x hx
+  rcases List.mem_cons.mp hx with rfl | hx
+  · exact h1
+  · exact h2 x hx
+
+theorem appsTransmit_eff (now : Int) (hp : Bool) : ∀ (k : Nat) (c c1 : Ctx) (b : Bool) (d : UseData) (fcd : Bool),
+    c.s.st = .useToken d fcd → appsTransmit now hp k c = (.ok c1, b) →
+    ∃ new, c1.calls = c.calls ++ new ∧ AskRun new ∧ c1.s.ring = c.s.ring ∧ c1.s.p = c.s.p ∧
+      c1.s.online = c.s.online ∧ c1.apps.length = c.apps.length ∧
+      (b = false → ∃ d', c1.s.st = .useToken d' fcd) ∧
+      ((∃ d', c1.s.st = .useToken d' fcd) ∨ ((∃ a d', c1.s.st = .awaitData a d') ∧ AwaitLink new c1.s)) := by
+  intro k
+  induction k with
+  | zero =>
+    intro c c1 b d fcd hst h
+    simp only [appsTransmit, Prod.mk.injEq, Res.ok.injEq] at h
+    obtain ⟨h1, h2⟩ := h
+    subst h1; subst h2
+    exact ⟨[], by simp, askRun_nil, rfl, rfl, rfl, rfl, fun _ => ⟨d, hst⟩, .inl ⟨d, hst⟩⟩
+  | succ k ih =>
+    intro c c1 b d fcd hst h
+    simp only [appsTransmit] at h
+    rcases hat : appTransmit c now hp with ⟨r, b1⟩
+    rw [hat] at h
+    cases r with
+    | panic site => cases h
+    | ok c2 =>
+      obtain ⟨ans, hc, hr, hpp, ho, hn, hl, hbf, hbt⟩ := appTransmit_eff c c2 now hp b1 d fcd hst hat
+      cases b1 with
+      | true =>
+        simp only [Prod.mk.injEq, Res.ok.injEq] at h
+        obtain ⟨h1, h2⟩ := h
+        subst h1; subst h2
+        obtain ⟨hd, pdu, hans, hcase⟩ := hbt rfl
+        refine ⟨[.transmit c.s.nextApp hp ans], hc, askRun_cons ⟨_, _, _, rfl⟩ (askRun_nil), hr, hpp, ho, hl,
+          (by intro hb; cases hb), ?_⟩
+        rcases hcase with ⟨-, hs2⟩ | ⟨a8, hexp, hs2⟩
+        · exact .inl ⟨d, hs2⟩
+        · refine .inr ⟨⟨_, _, hs2⟩, ?_⟩
+          intro a d' hs3
+          rw [hs2] at hs3
+          cases hs3
+          exact ⟨[], hp, hd, pdu, a8, by rw [hn, hans]; rfl, hexp, rfl⟩
+      | false =>
+        obtain ⟨hans, hs2⟩ := hbf rfl
+        simp only at h
+        rw [hs2] at h
+        simp only [upd] at h
+        rcases ite_inv h with ⟨_, h⟩ | ⟨_, h⟩
+        · simp only [Prod.mk.injEq, Res.ok.injEq] at h
+          obtain ⟨h1, h2⟩ := h
+          subst h1; subst h2
+          exact ⟨[.transmit c.s.nextApp hp ans], hc, askRun_cons ⟨_, _, _, rfl⟩ (askRun_nil), hr, hpp, ho, hl,
+            fun _ => ⟨_, rfl⟩, .inl ⟨_, rfl⟩⟩
+        · obtain ⟨new, hc3, har, hr3, hp3, ho3, hl3, hbf3, hcase3⟩ := ih _ c1 b _ fcd rfl h
+          refine ⟨.transmit c.s.nextApp hp ans :: new, ?_, askRun_cons ⟨_, _, _, rfl⟩ har, hr3.trans hr, hp3.trans hpp,
+            ho3.trans ho, hl3.trans hl, hbf3, ?_⟩
+          · rw [hc3]; simp only [hc, List.append_assoc, List.singleton_append]
+          · rcases hcase3 with h' | ⟨h', hlink⟩
+            · exact .inl h'
+            · refine .inr ⟨h', ?_⟩
+              intro a d' hs3
+              obtain ⟨pre, hp', hd, pdu, a8, e1, e2, e3⟩ := hlink a d' hs3
+              exact ⟨.transmit c.s.nextApp hp ans :: pre, hp', hd, pdu, a8, by rw [e1]; rfl, e2, e3⟩
+
+/-- Outcomes of a token visit step that may ask applications. -/
+def UsePost (c c' : Ctx) : Prop :=
+  ∃ new, c'.calls = c.calls ++ new ∧ AskRun new ∧ c'.s.ring = c.s.ring ∧ c'.s.p = c.s.p ∧
+    c'.s.online = c.s.online ∧ c'.apps.length = c.apps.length ∧
+    ((∃ d' f', c'.s.st = .useToken d' f') ∨ c'.s.st = .passToken true .first ∨
+     ((∃ a d', c'.s.st = .awaitData a d') ∧ AwaitLink new c'.s))
+
+theorem useTokenGo_eff (c c' : Ctx) (now : Int) (d : UseData) (hp : Bool) (h : useTokenGo c now d hp = .ok c') :
+    UsePost c c' := by
+  unfold useTokenGo at h
+  simp only [upd] at h
+  rcases hat : appsTransmit now hp c.apps.length { c with s := { c.s with st := .useToken d true } } with ⟨r, b⟩
+  rw [hat] at h
+  cases r with
+  | panic site => cases h
+  | ok c2 =>
+    obtain ⟨new, hc, har, hr, hpp, ho, hl, hbf, hcase⟩ := appsTransmit_eff now hp _ _ c2 b d true rfl hat
+    cases b with
+    | true =>
+      cases h
+      refine ⟨new, hc, har, hr, hpp, ho, hl, ?_⟩
+      rcases hcase with ⟨d', h'⟩ | h'
+      · exact .inl ⟨d', true, h'⟩
+      · exact .inr (.inr h')
+    | false =>
+      simp only at h
+      obtain ⟨s', hs', hc'⟩ := tr_inv h
+      have := toPassToken_inv hs'
+      subst this; subst hc'
+      exact ⟨new, hc, har, hr, hpp, ho, hl, .inr (.inl rfl)⟩
+
+theorem doUseToken_eff (c c' : Ctx) (now : Int) (d : UseData) (fcd : Bool) (hst : c.s.st = .useToken d fcd)
+    (h : doUseToken c now = .ok c') : UsePost c c' := by
+  unfold doUseToken at h
+  rw [hst] at h
+  simp only at h
+  have lift : ∀ c0 : Ctx, c0.calls = c.calls → c0.apps = c.apps → c0.s.ring = c.s.ring → c0.s.p = c.s.p →
+      c0.s.online = c.s.online → UsePost c0 c' → UsePost c c' := by
+    intro c0 e1 e2 e3 e4 e5 ⟨new, hc, har, hr, hpp, ho, hl, hcase⟩
+    exact ⟨new, by rw [hc, e1], har, hr.trans e3, hpp.trans e4, ho.trans e5, by rw [hl, e2], hcase⟩
+  rcases ite_inv h with ⟨_, h⟩ | ⟨_, h⟩
+  · cases h
+    exact ⟨[], by simp, askRun_nil, by simp, by simp, by simp, rfl, .inl ⟨d, fcd, by simpa using hst⟩⟩
+  · rcases ite_inv h with ⟨_, h⟩ | ⟨_, h⟩
+    · exact lift { c with s := (waitSyncPause (holdUpdate c.s d) now).1 } rfl rfl (by simp) (by simp) (by simp) (useTokenGo_eff _ c' now d false h)
+    · rcases ite_inv h with ⟨_, h⟩ | ⟨_, h⟩
+      · exact lift { c with s := (waitSyncPause (holdUpdate c.s d) now).1 } rfl rfl (by simp) (by simp) (by simp) (useTokenGo_eff _ c' now d true h)
+      · obtain ⟨s', hs', hc'⟩ := tr_inv h
+        have := toPassToken_inv hs'
+        subst this; subst hc'
+        exact ⟨[], by simp, askRun_nil, by simp, by simp, by simp, rfl, .inr (.inl rfl)⟩
+
+/-- Outcomes of a poll in `AwaitDataResponse`: keep waiting; deliver the (admitted) reply to the
+requesting application; drop an inadmissible telegram and back off to `ActiveIdle`; or deliver the
+time-out and continue the token visit at once. -/
+def AwaitPost (c c' : Ctx) (a : Nat) (d : UseData) : Prop :=
+  c'.s.ring = c.s.ring ∧ c'.s.p = c.s.p ∧ c'.s.online = c.s.online ∧ c'.apps.length = c.apps.length ∧
+  ((c'.calls = c.calls ∧ c'.s.st = .awaitData a d ∧ c'.s.nextApp = c.s.nextApp) ∨
+   (∃ t, validReplyB c.s.p.address a t = true ∧ c'.calls = c.calls ++ [.reply c.s.nextApp a t] ∧ c'.s.st = .useToken d true) ∨
+   (c'.calls = c.calls ∧ c'.s.st = .activeIdle none none 0) ∨
+   (∃ new, c'.calls = c.calls ++ .timeout c.s.nextApp a :: new ∧ AskRun new ∧
+      ((∃ d' f', c'.s.st = .useToken d' f') ∨ c'.s.st = .passToken true .first ∨
+       ((∃ a' d', c'.s.st = .awaitData a' d') ∧ AwaitLink new c'.s))))
+
+theorem doAwaitDataResponse_eff (c c' : Ctx) (now : Int) (a : Nat) (d : UseData) (hst : c.s.st = .awaitData a d)
+    (h : doAwaitDataResponse c now = .ok c') : AwaitPost c c' a d := by
+  unfold doAwaitDataResponse at h
+  rcases hrx : receiveTelegram c.rx with ⟨rx', calls, ret⟩ | _ | _ <;> rw [hrx, hst] at h <;> simp only at h
+  · rcases ite_inv h with ⟨_, h⟩ | ⟨_, h⟩
+    · cases h
+    cases calls with
+    | nil =>
+      simp only at h
+      rcases ite_inv h with ⟨_, h⟩ | ⟨_, h⟩
+      · obtain ⟨c2, ht, h⟩ := bind_ok_inv h
+        obtain ⟨c3, ht3, ht⟩ := bind_ok_inv ht
+        obtain ⟨s', hs', hc'⟩ := tr_inv ht3
+        have := toUseToken_inv hs'
+        subst this; subst hc'
+        simp only [upd, Res.ok.injEq] at ht
+        subst ht
+        obtain ⟨new, hc, har, hr, hpp, ho, hl, hcase⟩ := doUseToken_eff _ c' now d true rfl h
+        exact ⟨by simpa using hr, by simpa using hpp, by simpa using ho, by simpa using hl,
+          .inr (.inr (.inr ⟨new, by simpa using hc, har, hcase⟩))⟩
+      · cases h
+        exact ⟨by simp, by simp, by simp, rfl, .inl ⟨rfl, by simpa using hst, by simp⟩⟩
+    | cons x rest =>
+      obtain ⟨t, fl⟩ := x
+      simp only at h
+      rcases ite_inv h with ⟨hv, h⟩ | ⟨_, h⟩
+      · obtain ⟨c3, ht3, ht⟩ := bind_ok_inv h
+        obtain ⟨s', hs', hc'⟩ := tr_inv ht3
+        have := toUseToken_inv hs'
+        subst this; subst hc'
+        simp only [upd, Res.ok.injEq] at ht
+        subst ht
+        refine ⟨by simp, by simp, by simp, rfl, .inr (.inl ⟨t, ?_, rfl, rfl⟩)⟩
+        cases t with
+        | token da sa => simp at hv
+        | sc => rfl
+        | data hd pdu =>
+          cases hfc : hd.fc with
+          | request fcb req => simp only [hfc] at hv; simp at hv
+          | response st stt => simp only [hfc] at hv; simpa [validReplyB, hfc] using hv
+      · obtain ⟨s', hs', hc'⟩ := tr_inv h
+        have := toActiveIdle_inv hs'
+        subst this; subst hc'
+        exact ⟨by simp, by simp, by simp, rfl, .inr (.inr (.inl ⟨rfl, rfl⟩))⟩
+  · rcases ite_inv h with ⟨_, h⟩ | ⟨_, h⟩ <;> cases h
+  · rcases ite_inv h with ⟨_, h⟩ | ⟨_, h⟩ <;> cases h
+
 end PV
